@@ -22,7 +22,7 @@ NOTES = {
     "C11": ("broad", "nothing declined except the table facts the rules read (QUALITIES literals)"),
     "C12": ("medium", "declined: that sampled/merged labels are actually unchanged by a cut (C13's value-level content)"),
     "C13": ("narrow", "declined: labels per instant, duration conservation, inverse property - need values"),
-    "C14": ("medium-broad", "declined: absence of exceptions for all valid inputs (NumPy/SciPy raising on a shape no rule models)"),
+    "C14": ("medium-broad", "declined: absence of exceptions for all valid inputs (NumPy/SciPy raising on a shape no rule models); two genuine violations of the decided clauses (melody.to_cent_voicing reads ref_time[0] / est_time[0] of a possibly empty array: melody.evaluate raises IndexError for an empty side) are listed in known_findings.json and reported as KNOWN-FINDING"),
     "C15": ("broad", "declined: bit-identity of floating-point results inside NumPy/SciPy (BLAS threading, FFT planning)"),
     "C16": ("narrow", "declined: the numeric values of all clustering-index formulas"),
     "C17": ("narrow", "declined: inversion counting, window slicing arithmetic, frame rounding"),
